@@ -145,6 +145,10 @@ func (p *provProfile) Run(s *Sim) {
 	p.e.CP.WorstBias = []int{50, 100, 0}[ch.Pick("prov.worst", 3)]
 	p.k = NewKubelet(p.e)
 	p.k.RegDelayMax = 90 * time.Second
+	if p.disrupt && ch.Pick("dis.slowboot", 4) == 3 {
+		// some fleets boot slowly: a replacement may need longer than the orchestration queue's retry duration
+		p.k.RegDelayMax = 13 * time.Minute
+	}
 	p.k.ReadyDelayMax = 30 * time.Second
 	p.k.WatchPods()
 	p.k.StartCCM(40 * time.Second)
